@@ -211,6 +211,45 @@ Proof.
   repeat split; f_equal; lra.
 Qed.
 
+(* the code since /repo a129335: beta = 2 atan2(|x10|, |x11|).  The contract of atan2 on the unit vector (|x11|, |x10|) of
+   the first quadrant is  cos(beta/2) = |x11|, sin(beta/2) = |x10|  (no range condition is needed: it enters only through
+   these two values); the acos form above is the special case obtained through half_angle. *)
+Theorem euler_extract_reproduces_atan2 (x00 x01 x10 x11 : C) apg amg beta :
+  x00 = Cconj x11 -> x01 = Copp (Cconj x10) ->
+  cos apg * Cmod x11 = fst x11 -> sin apg * Cmod x11 = snd x11 ->
+  cos amg * Cmod x10 = fst x10 -> sin amg * Cmod x10 = - snd x10 ->
+  cos (beta / 2) = Cmod x11 -> sin (beta / 2) = Cmod x10 ->
+  Dconj 1 (-1) (-1) (apg + amg) beta (apg - amg) = x00 /\
+  Dconj 1 1 (-1) (apg + amg) beta (apg - amg) = x01 /\
+  Dconj 1 (-1) 1 (apg + amg) beta (apg - amg) = x10 /\
+  Dconj 1 1 1 (apg + amg) beta (apg - amg) = x11.
+Proof.
+  intros E00 E01 Hc1 Hs1 Hc0 Hs0 Hch Hsh.
+  subst x00 x01. unfold Dconj.
+  rewrite dsmall_half_mm, dsmall_half_pm, dsmall_half_mp, dsmall_half_pp, Hch, Hsh.
+  replace (IZR (-1) / 2 * (apg + amg) + IZR (-1) / 2 * (apg - amg)) with (- apg) by field.
+  replace (IZR 1 / 2 * (apg + amg) + IZR (-1) / 2 * (apg - amg)) with amg by field.
+  replace (IZR (-1) / 2 * (apg + amg) + IZR 1 / 2 * (apg - amg)) with (- amg) by field.
+  replace (IZR 1 / 2 * (apg + amg) + IZR 1 / 2 * (apg - amg)) with apg by field.
+  rewrite !cos_neg, !sin_neg.
+  destruct x11 as [p1 q1], x10 as [p0 q0]. unfold Cconj, Copp. simpl fst in *. simpl snd in *.
+  repeat split; f_equal; lra.
+Qed.
+
+(* the two extractions agree on SU(2): an angle with the atan2 contract in [0, PI] has the acos contract *)
+Lemma atan2_contract_is_acos_contract (x00 x01 x10 x11 : C) beta :
+  x00 = Cconj x11 -> x01 = Copp (Cconj x10) ->
+  cos (beta / 2) = Cmod x11 -> sin (beta / 2) = Cmod x10 ->
+  cos beta = fst (x00 * x11 + x01 * x10)%C.
+Proof.
+  intros E00 E01 Hch Hsh.
+  replace beta with (2 * (beta / 2)) at 1 by field.
+  rewrite cos_2a, Hch, Hsh, E00, E01.
+  replace (Cmod x11 * Cmod x11) with (Cmod x11 ^ 2) by ring.
+  replace (Cmod x10 * Cmod x10) with (Cmod x10 ^ 2) by ring.
+  rewrite !Cmod_sq. destruct x11 as [p1 q1], x10 as [p0 q0]. simpl. ring.
+Qed.
+
 (* the contract of tf.math.angle for nonzero arguments *)
 Theorem euler_extract_reproduces (x00 x01 x10 x11 : C) apg amg beta :
   x00 = Cconj x11 -> x01 = Copp (Cconj x10) ->
